@@ -7,7 +7,7 @@ OUT ?= /verif/build
 B := $(OUT)/$(V)
 H := /verif
 ifeq ($(V),asan)
-SAN := -fsanitize=address,undefined -fno-sanitize-recover=undefined -fno-omit-frame-pointer
+SAN := -fsanitize=address,undefined -fno-sanitize=nonnull-attribute -fno-sanitize-recover=undefined -fno-omit-frame-pointer
 LSAN := $(SAN)
 endif
 ifeq ($(V),tsan)
